@@ -168,5 +168,9 @@ impl MessageReceiver {
 @@ret r
 @@ensures gate.frame.state
     r.source_guid_prefix == self.source_guid_prefix
+@@ensures interp.state
+    // what the Reader is given as "the state in force for this submessage"
+    r.source_timestamp == self.source_timestamp, r.source_guid_prefix == self.source_guid_prefix,
+    r.unicast_reply_locator_list@ == self.unicast_reply_locator_list@,
 @@end
 }
